@@ -1,108 +1,209 @@
-"""Definition of harness binaries and of the runs that make up each check."""
+"""Definition of harness binaries and of the runs that make up each check.
+
+Every run is bounded by case counts (rounds, programs, trees ...); `timeout`
+only feeds the watchdog (a watchdog firing is *inconclusive*, exit 2, except
+for runs marked hang_is_violation, where not finishing is what the property
+forbids - C09).
+"""
 
 SEQ_SOURCES = ["seq/main.cpp", "seq/m_map.cpp", "seq/m_scan.cpp", "seq/m_phantom.cpp", "seq/m_iscan.cpp",
                "seq/m_nodeinfo.cpp", "seq/m_storage.cpp", "seq/m_value.cpp", "seq/m_memusage.cpp", "common/allocreg.cpp"]
+CONC_SOURCES = ["conc/main.cpp", "conc/c_lin.cpp", "conc/c_scan.cpp", "conc/c_phantom.cpp", "conc/c_gc.cpp", "conc/c_struct.cpp",
+                "conc/c_ddl.cpp", "conc/c_value.cpp", "conc/c_leak.cpp", "conc/c_cycle.cpp", "common/allocreg.cpp"]
+UNIT_SOURCES = ["unit/main.cpp", "unit/u_version.cpp", "unit/u_compare.cpp", "unit/u_perm.cpp", "common/allocreg.cpp"]
+SESS_SOURCES = ["sess/main.cpp", "common/allocreg.cpp"]
+
+
+def defs(epoch=1, sessions=64):
+    return {"YAKUSHIMA_EPOCH_TIME": epoch, "YAKUSHIMA_MAX_PARALLEL_SESSIONS": sessions}
+
 
 BINARIES = {
-    # sequential differential harnesses; epoch period 1 ms so reclamation is live during the programs
-    "seq-asan": {"flavor": "asan", "sources": SEQ_SOURCES,
-                 "defines": {"YAKUSHIMA_EPOCH_TIME": 1, "YAKUSHIMA_MAX_PARALLEL_SESSIONS": 64}},
-    "unit-asan": {"flavor": "asan", "sources": ["unit/main.cpp", "unit/u_version.cpp", "unit/u_compare.cpp", "unit/u_perm.cpp", "common/allocreg.cpp"],
-                  "defines": {"YAKUSHIMA_EPOCH_TIME": 1, "YAKUSHIMA_MAX_PARALLEL_SESSIONS": 64}},
-    "unit-plain": {"flavor": "plain", "sources": ["unit/main.cpp", "unit/u_version.cpp", "unit/u_compare.cpp", "unit/u_perm.cpp", "common/allocreg.cpp"],
-                   "defines": {"YAKUSHIMA_EPOCH_TIME": 1, "YAKUSHIMA_MAX_PARALLEL_SESSIONS": 64}},
-    "conc-plain": {"flavor": "plain", "sources": ["conc/main.cpp", "conc/c_lin.cpp", "conc/c_scan.cpp", "conc/c_phantom.cpp", "common/allocreg.cpp"],
-                   "defines": {"YAKUSHIMA_EPOCH_TIME": 1, "YAKUSHIMA_MAX_PARALLEL_SESSIONS": 64}},
-    "conc-asan": {"flavor": "asan", "sources": ["conc/main.cpp", "conc/c_lin.cpp", "conc/c_scan.cpp", "conc/c_phantom.cpp", "common/allocreg.cpp"],
-                  "defines": {"YAKUSHIMA_EPOCH_TIME": 1, "YAKUSHIMA_MAX_PARALLEL_SESSIONS": 64}},
+    # epoch period 1 ms everywhere so that reclamation is live during the workloads
+    "seq-asan": {"flavor": "asan", "sources": SEQ_SOURCES, "defines": defs()},
+    "unit-asan": {"flavor": "asan", "sources": UNIT_SOURCES, "defines": defs()},
+    "unit-plain": {"flavor": "plain", "sources": UNIT_SOURCES, "defines": defs()},
+    "conc-plain": {"flavor": "plain", "sources": CONC_SOURCES, "defines": defs()},
+    "conc-asan": {"flavor": "asan", "sources": CONC_SOURCES, "defines": defs()},
+    "conc-plain-e5": {"flavor": "plain", "sources": CONC_SOURCES, "defines": defs(epoch=5)},
+    "conc-plain-e40": {"flavor": "plain", "sources": CONC_SOURCES, "defines": defs(epoch=40)},
+    "sess1-plain": {"flavor": "plain", "sources": SESS_SOURCES, "defines": defs(sessions=1)},
+    "sess2-plain": {"flavor": "plain", "sources": SESS_SOURCES, "defines": defs(sessions=2)},
+    "sess4-plain": {"flavor": "plain", "sources": SESS_SOURCES, "defines": defs(sessions=4)},
+    "sess64-plain": {"flavor": "plain", "sources": SESS_SOURCES, "defines": defs(sessions=64)},
 }
 
 
-def run(name, binary, timeout=600, repeat=1, **args):
-    return {"name": name, "bin": binary, "args": args, "timeout": timeout, "repeat": repeat}
+def run(name, binary, timeout=600, repeat=1, leaks=False, hang_is_violation=False, **args):
+    return {"name": name, "bin": binary, "args": args, "timeout": timeout, "repeat": repeat, "leaks": leaks,
+            "hang_is_violation": hang_is_violation}
 
 
 CHECKS = {
+    "C01": {
+        "title": "point operations are linearizable",
+        "quick": [run("conc_lin_plain", "conc-plain", mode="lin", prop="C01", rounds=6000, repeat=2),
+                  run("conc_lin_asan", "conc-asan", mode="lin", prop="C01", rounds=1200)],
+        "thorough": [run("conc_lin_plain", "conc-plain", mode="lin", prop="C01", rounds=400000, repeat=6, timeout=3400),
+                     run("conc_lin_asan", "conc-asan", mode="lin", prop="C01", rounds=60000, repeat=2, timeout=3400)],
+        "parallel": {"quick": 1, "thorough": 2},
+    },
     "C02": {
         "title": "single-session behaviour equals an ordered byte-string map",
-        "quick": [run("seq_map", "seq-asan", mode="map", prop="C02", programs=400, ops=300, repeat=2)],
-        "thorough": [run("seq_map", "seq-asan", mode="map", prop="C02", programs=6000, ops=400, huge=2, repeat=16, timeout=3000)],
-        "parallel": {"quick": 2, "thorough": 16},
+        "quick": [run("seq_map", "seq-asan", mode="map", prop="C02", programs=1500, ops=300, repeat=4)],
+        "thorough": [run("seq_map", "seq-asan", mode="map", prop="C02", programs=60000, ops=400, huge=2, repeat=16, timeout=3400)],
+        "parallel": {"quick": 4, "thorough": 16},
     },
     "C03": {
         "title": "quiescent range scan equals the interval content",
-        "quick": [run("seq_scan", "seq-asan", mode="scan", prop="C03", trees=150, scans=120, repeat=2)],
-        "thorough": [run("seq_scan", "seq-asan", mode="scan", prop="C03", trees=3000, scans=200, repeat=16, timeout=3000)],
-        "parallel": {"quick": 2, "thorough": 16},
+        "quick": [run("seq_scan", "seq-asan", mode="scan", prop="C03", trees=600, scans=150, repeat=4)],
+        "thorough": [run("seq_scan", "seq-asan", mode="scan", prop="C03", trees=40000, scans=200, repeat=16, timeout=3400)],
+        "parallel": {"quick": 4, "thorough": 16},
+    },
+    "C04": {
+        "title": "concurrent scans are per-key consistent and never lose a stable key",
+        "quick": [run("conc_scan_plain", "conc-plain", mode="scan", cursor=0, prop="C04", rounds=2500, repeat=2),
+                  run("conc_scan_asan", "conc-asan", mode="scan", cursor=0, prop="C04", rounds=400)],
+        "thorough": [run("conc_scan_plain", "conc-plain", mode="scan", cursor=0, prop="C04", rounds=150000, repeat=6, timeout=3400),
+                     run("conc_scan_asan", "conc-asan", mode="scan", cursor=0, prop="C04", rounds=15000, repeat=2, timeout=3400)],
+        "parallel": {"quick": 1, "thorough": 2},
     },
     "C05": {
         "title": "node-version sets detect later inserts",
-        "quick": [run("seq_phantom", "seq-asan", mode="phantom", prop="C05", trees=120, reads=14, cands=10, repeat=2)],
-        "thorough": [run("seq_phantom", "seq-asan", mode="phantom", prop="C05", trees=3000, reads=20, cands=14, repeat=16, timeout=3000)],
-        "parallel": {"quick": 2, "thorough": 16},
+        "quick": [run("seq_phantom", "seq-asan", mode="phantom", prop="C05", trees=600, reads=14, cands=10, repeat=4)],
+        "thorough": [run("seq_phantom", "seq-asan", mode="phantom", prop="C05", trees=30000, reads=20, cands=14, repeat=16, timeout=3400)],
+        "parallel": {"quick": 4, "thorough": 16},
+    },
+    "C06": {
+        "title": "a concurrent insert is seen by the scan or invalidates its version set",
+        "quick": [run("conc_phantom_scan", "conc-plain", mode="phantom", cursor=0, prop="C06", rounds=4000, repeat=2),
+                  run("conc_phantom_scan_asan", "conc-asan", mode="phantom", cursor=0, prop="C06", rounds=600)],
+        "thorough": [run("conc_phantom_scan", "conc-plain", mode="phantom", cursor=0, prop="C06", rounds=300000, repeat=6, timeout=3400),
+                     run("conc_phantom_scan_asan", "conc-asan", mode="phantom", cursor=0, prop="C06", rounds=30000, repeat=2, timeout=3400)],
+        "parallel": {"quick": 1, "thorough": 2},
+    },
+    "C07": {
+        "title": "memory handed out inside a session stays valid until leave",
+        "quick": [run("conc_gc_plain", "conc-plain", mode="gc", prop="C07", sessions=3000, min_reclaims=3000, repeat=2),
+                  run("conc_gc_asan", "conc-asan", mode="gc", prop="C07", sessions=600, min_reclaims=600)],
+        "thorough": [run("conc_gc_plain", "conc-plain", mode="gc", prop="C07", sessions=200000, min_reclaims=400000, repeat=3, timeout=3400),
+                     run("conc_gc_e5", "conc-plain-e5", mode="gc", prop="C07", sessions=60000, min_reclaims=100000, stall_us=100000, timeout=3400),
+                     run("conc_gc_e40", "conc-plain-e40", mode="gc", prop="C07", sessions=20000, min_reclaims=20000, stall_us=400000, timeout=3400),
+                     run("conc_gc_asan", "conc-asan", mode="gc", prop="C07", sessions=40000, min_reclaims=60000, timeout=3400, repeat=2)],
+        "parallel": {"quick": 1, "thorough": 2},
+    },
+    "C08": {
+        "title": "tree coherence at quiescent points",
+        "quick": [run("conc_struct_plain", "conc-plain", mode="struct", prop="C08", batches=250, repeat=2),
+                  run("conc_struct_asan", "conc-asan", mode="struct", prop="C08", batches=40),
+                  run("seq_map", "seq-asan", mode="map", prop="C08", programs=600, ops=300)],
+        "thorough": [run("conc_struct_plain", "conc-plain", mode="struct", prop="C08", batches=20000, repeat=6, timeout=3400),
+                     run("conc_struct_asan", "conc-asan", mode="struct", prop="C08", batches=2500, repeat=2, timeout=3400),
+                     run("seq_map", "seq-asan", mode="map", prop="C08", programs=20000, ops=400, repeat=8, timeout=3400)],
+        "parallel": {"quick": 1, "thorough": 2},
+    },
+    "C09": {
+        "title": "operations complete: no deadlock, no lock left held",
+        "quick": [run("conc_struct_progress", "conc-plain", mode="struct", prop="C09", batches=300, stall_s=30, hang_is_violation=True, timeout=900, repeat=2),
+                  run("conc_lin_progress", "conc-plain", mode="lin", prop="C09", rounds=3000, hang_is_violation=True, timeout=900)],
+        "thorough": [run("conc_struct_progress", "conc-plain", mode="struct", prop="C09", batches=25000, stall_s=60, hang_is_violation=True, timeout=3400, repeat=6),
+                     run("conc_lin_progress", "conc-plain", mode="lin", prop="C09", rounds=300000, hang_is_violation=True, timeout=3400, repeat=2)],
+        "parallel": {"quick": 1, "thorough": 2},
+    },
+    "C10": {
+        "title": "cursor API enumerates the interval in both directions",
+        "quick": [run("seq_iscan", "seq-asan", mode="iscan", prop="C10", trees=500, cursors=60, steppers=20, repeat=3),
+                  run("conc_iscan_single_layer", "conc-plain", mode="scan", cursor=1, scenario="flat", prop="C10", rounds=1200),
+                  run("conc_iscan_layers", "conc-plain", mode="scan", cursor=1, scenario="layers", prop="C10", rounds=400),
+                  run("conc_iscan_asan", "conc-asan", mode="scan", cursor=1, scenario="flat", prop="C10", rounds=150),
+                  run("conc_phantom_iscan", "conc-plain", mode="phantom", cursor=1, prop="C10", rounds=1500)],
+        "thorough": [run("seq_iscan", "seq-asan", mode="iscan", prop="C10", trees=30000, cursors=100, steppers=40, repeat=12, timeout=3400),
+                     run("conc_iscan_single_layer", "conc-plain", mode="scan", cursor=1, scenario="flat", prop="C10", rounds=40000, repeat=4, timeout=3400),
+                     run("conc_iscan_layers", "conc-plain", mode="scan", cursor=1, scenario="layers", prop="C10", rounds=20000, repeat=2, timeout=3400),
+                     run("conc_iscan_asan", "conc-asan", mode="scan", cursor=1, scenario="flat", prop="C10", rounds=6000, repeat=2, timeout=3400),
+                     run("conc_phantom_iscan", "conc-plain", mode="phantom", cursor=1, prop="C10", rounds=150000, repeat=2, timeout=3400)],
+        "parallel": {"quick": 1, "thorough": 2},
+    },
+    "C11": {
+        "title": "everything allocated is released by fin()",
+        "quick": [run("conc_leak_asan", "conc-asan", mode="leak", prop="C11", cycles=3, leaks=True, repeat=6),
+                  run("conc_leak_plain", "conc-plain", mode="leak", prop="C11", cycles=6, repeat=4)],
+        "thorough": [run("conc_leak_asan", "conc-asan", mode="leak", prop="C11", cycles=6, leaks=True, repeat=200, timeout=3400),
+                     run("conc_leak_plain", "conc-plain", mode="leak", prop="C11", cycles=20, repeat=200, timeout=3400)],
+        "parallel": {"quick": 2, "thorough": 4},
     },
     "C12": {
         "title": "put reports exactly the borders whose version changed",
-        "quick": [run("seq_nodeinfo", "seq-asan", mode="nodeinfo", prop="C12", programs=120, puts=120, repeat=2)],
-        "thorough": [run("seq_nodeinfo", "seq-asan", mode="nodeinfo", prop="C12", programs=2500, puts=200, repeat=16, timeout=3000)],
-        "parallel": {"quick": 2, "thorough": 16},
+        "quick": [run("seq_nodeinfo", "seq-asan", mode="nodeinfo", prop="C12", programs=250, puts=150, repeat=4)],
+        "thorough": [run("seq_nodeinfo", "seq-asan", mode="nodeinfo", prop="C12", programs=12000, puts=200, repeat=16, timeout=3400)],
+        "parallel": {"quick": 4, "thorough": 16},
     },
-    "C20": {
-        "title": "mem_usage equals an independent census",
-        "quick": [run("seq_memusage", "seq-asan", mode="memusage", prop="C20", trees=150, snaps=20, repeat=2)],
-        "thorough": [run("seq_memusage", "seq-asan", mode="memusage", prop="C20", trees=4000, snaps=30, repeat=16, timeout=3000)],
-        "parallel": {"quick": 2, "thorough": 16},
+    "C13": {
+        "title": "storages are isolated namespaces",
+        "quick": [run("seq_storage", "seq-asan", mode="storage", prop="C13", programs=400, ops=300, repeat=2),
+                  run("conc_ddl_plain", "conc-plain", mode="ddl", prop="C13", races=2500),
+                  run("conc_ddl_asan", "conc-asan", mode="ddl", prop="C13", races=400)],
+        "thorough": [run("seq_storage", "seq-asan", mode="storage", prop="C13", programs=20000, ops=400, repeat=12, timeout=3400),
+                     run("conc_ddl_plain", "conc-plain", mode="ddl", prop="C13", races=250000, repeat=3, timeout=3400),
+                     run("conc_ddl_asan", "conc-asan", mode="ddl", prop="C13", races=30000, timeout=3400)],
+        "parallel": {"quick": 2, "thorough": 4},
+    },
+    "C14": {
+        "title": "sessions are exclusive slots",
+        "quick": [run("sess_cap1", "sess1-plain", pairs=60000, prop="C14"), run("sess_cap2", "sess2-plain", pairs=60000, prop="C14"),
+                  run("sess_cap4", "sess4-plain", pairs=60000, prop="C14"), run("sess_cap64", "sess64-plain", pairs=60000, prop="C14")],
+        "thorough": [run("sess_cap1", "sess1-plain", pairs=4000000, prop="C14", timeout=3400, repeat=2), run("sess_cap2", "sess2-plain", pairs=4000000, prop="C14", timeout=3400, repeat=2),
+                     run("sess_cap4", "sess4-plain", pairs=4000000, prop="C14", timeout=3400, repeat=2), run("sess_cap64", "sess64-plain", pairs=4000000, prop="C14", timeout=3400, repeat=2)],
+        "parallel": {"quick": 1, "thorough": 1},
+    },
+    "C15": {
+        "title": "values round-trip exactly; updates are atomic",
+        "quick": [run("seq_value", "seq-asan", mode="value", prop="C15", chains=400),
+                  run("conc_value_plain", "conc-plain", mode="value", prop="C15", reads=400000),
+                  run("conc_value_asan", "conc-asan", mode="value", prop="C15", reads=60000)],
+        "thorough": [run("seq_value", "seq-asan", mode="value", prop="C15", chains=30000, big=1, repeat=4, timeout=3400),
+                     run("conc_value_plain", "conc-plain", mode="value", prop="C15", reads=50000000, repeat=2, timeout=3400),
+                     run("conc_value_asan", "conc-asan", mode="value", prop="C15", reads=4000000, timeout=3400)],
+        "parallel": {"quick": 1, "thorough": 2},
+    },
+    "C16": {
+        "title": "init/fin cycles are repeatable",
+        "quick": [run("seq_cycle", "conc-asan", mode="cycle", prop="C16", cycles=5, repeat=6)],
+        "thorough": [run("seq_cycle", "conc-asan", mode="cycle", prop="C16", cycles=12, repeat=150, timeout=3400),
+                     run("seq_cycle_e5", "conc-plain-e5", mode="cycle", prop="C16", cycles=8, repeat=20, timeout=3400),
+                     run("seq_cycle_e40", "conc-plain-e40", mode="cycle", prop="C16", cycles=4, cap_periods=100, repeat=6, timeout=3400)],
+        "parallel": {"quick": 3, "thorough": 4},
     },
     "C17": {
         "title": "node version word protocol",
-        "quick": [run("seq_version", "unit-asan", mode="version", part="seq", prop="C17", random=200000),
+        "quick": [run("seq_version", "unit-asan", mode="version", part="seq", prop="C17", random=300000),
                   run("conc_version_asan", "unit-asan", mode="version", part="conc", prop="C17", acq=60000, lockers=6, readers=3),
                   run("conc_version_plain", "unit-plain", mode="version", part="conc", prop="C17", acq=400000, lockers=8, readers=4, delays=0),
                   run("conc_version_plain_delays", "unit-plain", mode="version", part="conc", prop="C17", acq=150000, lockers=4, readers=2, delays=1)],
-        "thorough": [run("seq_version", "unit-asan", mode="version", part="seq", prop="C17", random=10000000, timeout=3000),
-                     run("conc_version_asan", "unit-asan", mode="version", part="conc", prop="C17", acq=2000000, lockers=8, readers=4, timeout=3000, repeat=2),
-                     run("conc_version_plain", "unit-plain", mode="version", part="conc", prop="C17", acq=30000000, lockers=12, readers=4, delays=0, timeout=3000, repeat=2),
-                     run("conc_version_plain_delays", "unit-plain", mode="version", part="conc", prop="C17", acq=5000000, lockers=6, readers=3, delays=1, timeout=3000, repeat=4)],
+        "thorough": [run("seq_version", "unit-asan", mode="version", part="seq", prop="C17", random=20000000, timeout=3400),
+                     run("conc_version_asan", "unit-asan", mode="version", part="conc", prop="C17", acq=2000000, lockers=8, readers=4, timeout=3400, repeat=2),
+                     run("conc_version_plain", "unit-plain", mode="version", part="conc", prop="C17", acq=30000000, lockers=12, readers=4, delays=0, timeout=3400, repeat=2),
+                     run("conc_version_plain_delays", "unit-plain", mode="version", part="conc", prop="C17", acq=5000000, lockers=6, readers=3, delays=1, timeout=3400, repeat=4)],
         "parallel": {"quick": 1, "thorough": 1},
     },
     "C18": {
         "title": "all comparison sites implement bytewise order",
-        "quick": [run("seq_compare", "unit-asan", mode="compare", prop="C18", random=200000, sets=15000, splits=3000)],
-        "thorough": [run("seq_compare", "unit-asan", mode="compare", prop="C18", random=3000000, sets=400000, splits=100000, repeat=8, timeout=3000)],
+        "quick": [run("seq_compare", "unit-asan", mode="compare", prop="C18", random=300000, sets=20000, splits=4000)],
+        "thorough": [run("seq_compare", "unit-asan", mode="compare", prop="C18", random=3000000, sets=400000, splits=100000, repeat=8, timeout=3400)],
         "parallel": {"quick": 1, "thorough": 8},
     },
     "C19": {
         "title": "permutation word encodes a valid ordering; atomic publication",
         "quick": [run("seq_perm", "unit-asan", mode="perm", part="seq", prop="C19", random=1500, exhaustive_n=6),
-                  run("conc_perm", "unit-plain", mode="perm", part="conc", prop="C19", ops=1000000, readers=3)],
-        "thorough": [run("seq_perm", "unit-asan", mode="perm", part="seq", prop="C19", random=100000, exhaustive_n=8, timeout=3000),
-                     run("conc_perm", "unit-plain", mode="perm", part="conc", prop="C19", ops=30000000, readers=4, timeout=3000, repeat=2)],
+                  run("conc_perm", "unit-plain", mode="perm", part="conc", prop="C19", ops=1500000, readers=3)],
+        "thorough": [run("seq_perm", "unit-asan", mode="perm", part="seq", prop="C19", random=100000, exhaustive_n=8, timeout=3400),
+                     run("conc_perm", "unit-plain", mode="perm", part="conc", prop="C19", ops=40000000, readers=4, timeout=3400, repeat=2)],
         "parallel": {"quick": 2, "thorough": 2},
     },
-    "C10": {
-        "title": "cursor API enumerates the interval in both directions",
-        "quick": [run("seq_iscan", "seq-asan", mode="iscan", prop="C10", trees=160, cursors=60, steppers=20, repeat=2)],
-        "thorough": [run("seq_iscan", "seq-asan", mode="iscan", prop="C10", trees=4000, cursors=100, steppers=40, repeat=16, timeout=3000)],
-        "parallel": {"quick": 2, "thorough": 16},
-    },
-    "C13": {
-        "title": "storages are isolated namespaces",
-        "quick": [run("seq_storage", "seq-asan", mode="storage", prop="C13", programs=120, ops=300, repeat=2)],
-        "thorough": [run("seq_storage", "seq-asan", mode="storage", prop="C13", programs=3000, ops=400, repeat=16, timeout=3000)],
-        "parallel": {"quick": 2, "thorough": 16},
-    },
-    "C15": {
-        "title": "values round-trip exactly; updates are atomic",
-        "quick": [run("seq_value", "seq-asan", mode="value", prop="C15", chains=300)],
-        "thorough": [run("seq_value", "seq-asan", mode="value", prop="C15", chains=20000, big=1, repeat=4, timeout=3000)],
-        "parallel": {"quick": 2, "thorough": 4},
-    },
-    "C01": {
-        "title": "point operations are linearizable",
-        "quick": [run("conc_lin_plain", "conc-plain", mode="lin", prop="C01", rounds=1500, repeat=2),
-                  run("conc_lin_asan", "conc-asan", mode="lin", prop="C01", rounds=400)],
-        "thorough": [run("conc_lin_plain", "conc-plain", mode="lin", prop="C01", rounds=60000, repeat=4, timeout=3400),
-                     run("conc_lin_asan", "conc-asan", mode="lin", prop="C01", rounds=8000, repeat=2, timeout=3400)],
-        "parallel": {"quick": 1, "thorough": 2},
+    "C20": {
+        "title": "mem_usage equals an independent census",
+        "quick": [run("seq_memusage", "seq-asan", mode="memusage", prop="C20", trees=500, snaps=25, repeat=4)],
+        "thorough": [run("seq_memusage", "seq-asan", mode="memusage", prop="C20", trees=40000, snaps=30, repeat=16, timeout=3400)],
+        "parallel": {"quick": 4, "thorough": 16},
     },
 }
